@@ -1122,9 +1122,9 @@ LIN_KINDS = [("add", 8), ("sub", 8), ("add_assign", 6), ("sub_assign", 6), ("neg
              ("add_pt_znx", 4), ("sub_pt_znx", 3), ("add_pt_znx_assign", 3), ("sub_pt_znx_assign", 3)]
 MUL_KINDS = [("mul", 8), ("mul_assign", 4), ("square", 4), ("square_assign", 2), ("mul_pt_znx", 5), ("mul_pt_znx_assign", 3),
              ("mul_add_ct", 4), ("mul_sub_ct", 3), ("mul_add_pt_znx", 3), ("mul_sub_pt_znx", 3),
-             ("add_many", 5), ("dot_ct", 8), ("dot_pt_znx", 4), ("rot", 4), ("rot_assign", 2), ("conj", 3), ("conj_assign", 2)]
+             ("add_many", 5), ("mul_many", 5), ("dot_ct", 8), ("dot_pt_znx", 4), ("rot", 4), ("rot_assign", 2), ("conj", 3), ("conj_assign", 2)]
 NEEDS_ATK = ("rot", "rot_assign", "conj", "conj_assign")
-NEEDS_KEY = ("mul", "mul_assign", "square", "square_assign", "dot_ct", "mul_add_ct", "mul_sub_ct")
+NEEDS_KEY = ("mul", "mul_assign", "square", "square_assign", "dot_ct", "mul_add_ct", "mul_sub_ct", "mul_many")
 
 
 def data_programs(rng, count, max_steps, with_mul=False):
@@ -1198,6 +1198,8 @@ def data_programs(rng, count, max_steps, with_mul=False):
                         c = [name, d, k_] + [rng.choice(others) for _ in range(k_)] + [pd_, pb_, q]
                 elif name == "add_many":
                     c = [name, d] + [rng.choice(others) for _ in range(rng.range(1, 4))]
+                elif name == "mul_many":
+                    c = [name, d] + [rng.choice(others) for _ in range(rng.range(1, 5))]
                 elif name == "dot_ct":
                     k_ = rng.range(1, 3)
                     c = [name, d, k_] + [rng.choice(others) for _ in range(2 * k_)]
@@ -1355,6 +1357,9 @@ def data_scenarios():
             # mul_add / mul_sub: the product goes to a temporary, then the normalising in-place sum (destination budget above / below the product's)
             (f"{s_}:{d}:{cap-d}/{s_}:{d}:{cap-d}/{s_}:{d}:{cap-2*d-q}/{s_-1}:{d}:{q}",
              "mul_add_ct,2,0,1;mul_sub_ct,2,1,0;mul_add_ct,3,0,1;mul_add_pt_znx,2,0,%d,%d,%d;mul_sub_pt_znx,3,1,%d,0,%d" % (d, q, q, d, q)),
+            # mul_many: one input (aligned copy), two (a product), three to five (product tree into scratch ciphertexts)
+            (f"{s_+2}:{d}:{(s_+2)*q-d}/{s_+2}:{d}:{(s_+2)*q-d}/{s_+2}:{d}:{(s_+2)*q-d-3}/{s_+2}:0:0/{s_}:0:0",
+             "mul_many,3,0;mul_many,3,0,1;mul_many,3,0,1,2;mul_many,4,0,1,2,0;mul_many,3,0,1,2,1,0"),
             # add_many: one input, two, three with different budgets
             (f"{s_}:{d}:{cap-d}/{s_}:{d}:{cap-d-7}/{s_}:{d}:{cap-d-q-2}/{s_}:0:0/{s_-1}:0:0", "add_many,3,0;add_many,3,0,1;add_many,3,0,1,2;add_many,4,2,1,0,1"),
             # dot products: aligned sides; crossed budgets (uniform delta per side): the fused path rescales into buffers
